@@ -364,6 +364,12 @@ func (s *Server) handlePostHalt(w http.ResponseWriter, r *http.Request) {
 		return
 	}
 
+	// Only the primary hands out halt locks.
+	if !s.store.IsPrimary() {
+		Error(w, r, fmt.Errorf("not primary"), http.StatusServiceUnavailable)
+		return
+	}
+
 	// Ensure database exists before attempting a lock.
 	db, err := s.store.CreateDBIfNotExists(name)
 	if err != nil {
@@ -474,6 +480,12 @@ func (s *Server) handlePostTx(w http.ResponseWriter, r *http.Request) {
 	// Cannot issue remote halt lock from this node.
 	if id, _ := litefs.ParseNodeID(r.Header.Get(HeaderNodeID)); id == s.store.ID() {
 		Error(w, r, fmt.Errorf("cannot remotely halt self"), http.StatusBadRequest)
+		return
+	}
+
+	// Only the primary accepts forwarded transactions.
+	if !s.store.IsPrimary() {
+		Error(w, r, fmt.Errorf("not primary"), http.StatusServiceUnavailable)
 		return
 	}
 
